@@ -5,6 +5,7 @@ open BinNums
 open Base
 open C07Model
 open C06Model
+open C06InitModel
 
 let e = C07Aes.aes128_encrypt
 let d = C07Aes.aes128_decrypt
@@ -66,6 +67,64 @@ let string_of_mchildren (l : mchild list) : string =
         | MPssh (z, i) -> Printf.sprintf "P:%d:%d" (int_of_n z) (int_of_n i)
         | MOther (z, i) -> Printf.sprintf "O:%d:%d" (int_of_n z) (int_of_n i)) l)
 
+
+(* ---- init segment cases ---- *)
+let cc (s : string) : coq_N =
+  if S.length s <> 4 then n_of_int 0
+  else n_of_int (((Char.code s.[0] * 256 + Char.code s.[1]) * 256 + Char.code s.[2]) * 256 + Char.code s.[3])
+
+let cc_string (n : coq_N) : string =
+  let v = int_of_n n in
+  S.init 4 (fun i -> Char.chr ((v lsr (8 * (3 - i))) land 255))
+
+let tenc_string (t : tenc_t) : string =
+  Printf.sprintf "%d/%d/%d/%d/%d/%s" (int_of_n t.t_version) (int_of_n t.t_cb) (int_of_n t.t_sb)
+    (int_of_n t.t_isprot) (int_of_n t.t_ivsize) (hex_of_bytes t.t_constiv)
+
+let tenc_of_string (s : string) : tenc_t =
+  match split_on '/' s with
+  | [v; cb; sb; ip; ivs; civ] ->
+    { t_version = n_of_int (int_of_string v); t_cb = n_of_int (int_of_string cb); t_sb = n_of_int (int_of_string sb);
+      t_isprot = n_of_int (int_of_string ip); t_ivsize = n_of_int (int_of_string ivs); t_kid = n_of_int 1;
+      t_constiv = bytes_of_hex civ }
+  | _ -> failwith "bad tenc"
+
+(* sample entry children: o<id> | s:<frma>:<schm|->:<tenc|-> separated by ',' *)
+let sechild_of (x : string) : sechild =
+  if x.[0] = 'o' then SEOther (n_of_int (int_of_string (S.sub x 1 (S.length x - 1))))
+  else match split_on ':' x with
+    | ["s"; f; sc; t] ->
+      SESinf { si_frma = cc f; si_schm = (if sc = "-" then None else Some (cc sc));
+               si_tenc = (if t = "-" then None else Some (tenc_of_string t)) }
+    | _ -> failwith ("bad sechild " ^ x)
+
+let sechild_string (c : sechild) : string =
+  match c with
+  | SEOther i -> "o" ^ string_of_int (int_of_n i)
+  | SESinf s -> Printf.sprintf "s:%s:%s:%s" (cc_string s.si_frma)
+                  (match s.si_schm with None -> "-" | Some x -> cc_string x)
+                  (match s.si_tenc with None -> "-" | Some t -> tenc_string t)
+
+let csv f l = match l with [] -> "-" | _ -> S.concat "," (L.map f l)
+let uncsv f s = if s = "-" || s = "" then [] else L.map f (split_on ',' s)
+
+let sentry_string (e : sentry) : string =
+  (match e.se_kind with SVisual -> "v" | SAudio -> "a" | SOtherKind -> "o") ^ "/" ^ cc_string e.se_type ^ "/" ^
+  csv sechild_string e.se_children
+
+let mvchild_string (c : mvchild) : string =
+  match c with
+  | MVTrak es -> "T[" ^ (match es with [] -> "" | _ -> S.concat ";" (L.map sentry_string es)) ^ "]"
+  | MVPssh i -> "p" ^ string_of_int (int_of_n i)
+  | MVOther i -> "o" ^ string_of_int (int_of_n i)
+
+let moov_string m = match m with [] -> "-" | _ -> S.concat "+" (L.map mvchild_string m)
+
+let info_string (ti : track_info) : string =
+  match ti with
+  | None -> "clear"
+  | Some (sc, t) -> cc_string sc ^ "=" ^ (match t with None -> "-" | Some t -> tenc_string t)
+
 let check id what model obs =
   if model = obs then Printf.printf "OK %s\n" id
   else Printf.printf "MISMATCH %s %s model=%s\n" id what
@@ -81,6 +140,26 @@ let () =
         let r = decrypt_samples e d (scheme_of sch) (bytes_of_hex key) (bytes_of_hex constiv)
             (n_of_int (int_of_string cb)) (n_of_int (int_of_string sb)) ivs subs samples in
         check id "decryptSamplesInPlace" (res_string hexlist r) obs
+      | ["P"; id; kind; ty; sech; moovs; sch; iv; npssh; psok; obs] ->
+        let se = { se_kind = (match kind with "v" -> SVisual | "a" -> SAudio | _ -> SOtherKind);
+                   se_type = cc ty; se_children = uncsv sechild_of sech } in
+        let second = { se_kind = SAudio; se_type = cc "mp4a"; se_children = [] } in
+        let m = uncsv (fun x ->
+            if x = "T" then MVTrak [se] else if x = "U" then MVTrak [second]
+            else if x.[0] = 'p' then MVPssh (n_of_int (int_of_string (S.sub x 1 (S.length x - 1))))
+            else MVOther (n_of_int (int_of_string (S.sub x 1 (S.length x - 1))))) (S.concat "," (split_on '+' moovs)) in
+        let psshs = L.init (int_of_string npssh) (fun i -> n_of_int (1000 + i)) in
+        let model =
+          match init_protect m (bytes_of_hex iv) (cc sch) (n_of_int 1) psshs (psok = "1") with
+          | Ok (m1, t) ->
+            let first = "ok|" ^ moov_string m1 ^ "|" ^ tenc_string t in
+            let second =
+              match decrypt_init m1 with
+              | Ok (m2, tis) -> "ok|" ^ moov_string m2 ^ "|" ^ csv info_string tis
+              | Err -> "err" | Panic -> "panic" | OutOfFuel -> "outoffuel" in
+            first ^ "#" ^ second
+          | Err -> "err" | Panic -> "panic" | OutOfFuel -> "outoffuel" in
+        check id "InitProtect/DecryptInit" model obs
       | ["S"; id; boxes; obs] ->
         let (rest, n) = remove_encryption_boxes (tboxes_of boxes) in
         check id "RemoveEncryptionBoxes" (Printf.sprintf "%s|%d" (string_of_tboxes rest) (int_of_n n)) obs
